@@ -287,22 +287,15 @@ func billableServiceInstancesDeltas(change memdb.Change, usageDeltas map[string]
 		// or decrement by 1 depending on the situation.
 		before := change.Before.(*structs.ServiceNode)
 		after := change.After.(*structs.ServiceNode)
-		// Service name changed away from "consul" means we now need to account for this service instances unless it's a "connect" service.
-		if before.ServiceName == structs.ConsulServiceName && after.ServiceName != structs.ConsulServiceName {
-			if after.ServiceKind == structs.ServiceKindTypical {
-				usageDeltas[billableServiceInstancesTableName()] += 1
-				addEnterpriseBillableServiceInstanceUsage(usageDeltas, after, 1)
-			}
-		}
-		if before.ServiceName != structs.ConsulServiceName && after.ServiceName == structs.ConsulServiceName {
-			usageDeltas[billableServiceInstancesTableName()] -= 1
-			addEnterpriseBillableServiceInstanceUsage(usageDeltas, before, -1)
-		}
-
-		if before.ServiceKind != structs.ServiceKindTypical && after.ServiceKind == structs.ServiceKindTypical {
+		// An instance is billable when it is a typical service other than "consul". Compare the two states as a whole:
+		// the name and the kind transitions are not independent (e.g. a "consul" instance changing kind is billable
+		// neither before nor after).
+		wasBillable := before.ServiceKind == structs.ServiceKindTypical && before.ServiceName != structs.ConsulServiceName
+		isBillable := after.ServiceKind == structs.ServiceKindTypical && after.ServiceName != structs.ConsulServiceName
+		if !wasBillable && isBillable {
 			usageDeltas[billableServiceInstancesTableName()] += 1
 			addEnterpriseBillableServiceInstanceUsage(usageDeltas, after, 1)
-		} else if before.ServiceKind == structs.ServiceKindTypical && after.ServiceKind != structs.ServiceKindTypical {
+		} else if wasBillable && !isBillable {
 			usageDeltas[billableServiceInstancesTableName()] -= 1
 			addEnterpriseBillableServiceInstanceUsage(usageDeltas, before, -1)
 		}
